@@ -7,11 +7,14 @@ namespace CR.Drv.C05
 /-! JSON shapes (shared with harness/c05.py)
   Pt      [x, y]
   Shape   {"k":"rect","l","w","c":Pt,"th"} | {"k":"circ","r","c"} | {"k":"poly","v":[Pt]} | {"k":"group","s":[Shape]}
-  State   {"pos": null | {"pt":Pt} | {"sh":Shape}, "ori": null | {"x":θ} | {"iv":[lo,hi]}, "vel": null | Pt}
+  State   {"pos": null | {"pt":Pt} | {"sh":Shape} | {"other":true}, "ori": null | {"x":θ} | {"iv":[lo,hi]} | {"other":true},
+           "vel": null | Pt}
   Lanelet {"l":[Pt],"c":[Pt],"r":[Pt],"stop": null | [Pt,Pt], "poly":[Pt]}
-  Obst    {"k":"static","st"} | {"k":"dynamic","st","traj": null|[State],"occ": null|[Shape]}
+  Obst    {"k":"static","body":Shape,"st"}
+          | {"k":"dynamic","body","st","traj": null|[State],"pbody": null|Shape,"occ": null|[Shape],"hist":[State]}
           | {"k":"phantom","occ": null|[Shape]} | {"k":"env","sh"}
-  Scen    {"lanelets","signs":[Pt],"lights":[Pt],"obstacles"}
+  Light   {"p":Pt,"lsh": null|Shape}
+  Scen    {"lanelets","signs":[Pt],"lights":[Light],"obstacles","areas":[[[Pt]]]}
   Problem {"init":State,"goal":[State]}
 -/
 
@@ -46,15 +49,17 @@ def stateOf (j : Json) : P State := do
   let pos ← match fieldOpt j "pos" with
     | none => pure Pos.none
     | some p =>
-      match fieldOpt p "pt" with
-      | some q => do pure (Pos.pt (← ptOf q))
-      | none => do pure (Pos.region (← shapeOf (← field p "sh")))
+      match fieldOpt p "pt", fieldOpt p "other" with
+      | some q, _ => do pure (Pos.pt (← ptOf q))
+      | none, some _ => pure Pos.other
+      | none, none => do pure (Pos.region (← shapeOf (← field p "sh")))
   let ori ← match fieldOpt j "ori" with
     | none => pure Ori.none
     | some o =>
-      match fieldOpt o "x" with
-      | some x => do pure (Ori.exact (← asRat x))
-      | none => do
+      match fieldOpt o "x", fieldOpt o "other" with
+      | some x, _ => do pure (Ori.exact (← asRat x))
+      | none, some _ => pure Ori.other
+      | none, none => do
         match ← asArr (← field o "iv") with
         | [a, b] => pure (Ori.iv ⟨← asRat a, ← asRat b⟩)
         | _ => throw "iv: expected [lo, hi]"
@@ -65,11 +70,13 @@ def stateJ (st : State) : Json :=
     ("pos", match st.pos with
       | .none => Json.null
       | .pt p => Json.mkObj [("pt", ptJ p)]
-      | .region sh => Json.mkObj [("sh", shapeJ sh)]),
+      | .region sh => Json.mkObj [("sh", shapeJ sh)]
+      | .other => Json.mkObj [("other", Json.bool true)]),
     ("ori", match st.ori with
       | .none => Json.null
       | .exact θ => Json.mkObj [("x", ratJ θ)]
-      | .iv i => Json.mkObj [("iv", Json.arr #[ratJ i.lo, ratJ i.hi])]),
+      | .iv i => Json.mkObj [("iv", Json.arr #[ratJ i.lo, ratJ i.hi])]
+      | .other => Json.mkObj [("other", Json.bool true)]),
     ("vel", optJ ptJ st.vel)]
 
 def listJ {α} (f : α → Json) (l : List α) : Json := Json.arr (l.map f).toArray
@@ -89,33 +96,40 @@ def laneletJ (la : Lanelet) : Json :=
 
 def obstOf (j : Json) : P Obstacle := do
   match ← getStr j "k" with
-  | "static" => pure (.static (← stateOf (← field j "st")))
+  | "static" => pure (.static (← shapeOf (← field j "body")) (← stateOf (← field j "st")))
   | "dynamic" =>
+    let body ← shapeOf (← field j "body")
     let st ← stateOf (← field j "st")
+    let hist ← getList stateOf j "hist"
     match ← optOf (listOf stateOf) j "traj", ← optOf (listOf shapeOf) j "occ" with
-    | some sts, _ => pure (.dynamic st (.traj sts))
-    | none, some shs => pure (.dynamic st (.occ shs))
-    | none, none => pure (.dynamic st .none)
+    | some sts, _ => pure (.dynamic body st (.traj (← shapeOf (← field j "pbody")) sts) hist)
+    | none, some shs => pure (.dynamic body st (.occ shs) hist)
+    | none, none => pure (.dynamic body st .none hist)
   | "phantom" => pure (.phantom (← optOf (listOf shapeOf) j "occ"))
   | "env" => pure (.env (← shapeOf (← field j "sh")))
   | k => throw s!"unknown obstacle kind {k}"
 
 def obstJ : Obstacle → Json
-  | .static st => Json.mkObj [("k", "static"), ("st", stateJ st)]
-  | .dynamic st p =>
-    Json.mkObj [("k", "dynamic"), ("st", stateJ st),
-                ("traj", match p with | .traj sts => listJ stateJ sts | _ => Json.null),
-                ("occ", match p with | .occ shs => listJ shapeJ shs | _ => Json.null)]
+  | .static body st => Json.mkObj [("k", "static"), ("body", shapeJ body), ("st", stateJ st)]
+  | .dynamic body st p hist =>
+    Json.mkObj [("k", "dynamic"), ("body", shapeJ body), ("st", stateJ st),
+                ("traj", match p with | .traj _ sts => listJ stateJ sts | _ => Json.null),
+                ("pbody", match p with | .traj b _ => shapeJ b | _ => Json.null),
+                ("occ", match p with | .occ shs => listJ shapeJ shs | _ => Json.null),
+                ("hist", listJ stateJ hist)]
   | .phantom p => Json.mkObj [("k", "phantom"), ("occ", optJ (listJ shapeJ) p)]
   | .env sh => Json.mkObj [("k", "env"), ("sh", shapeJ sh)]
 
+def lightOf (j : Json) : P Light := do pure ⟨← ptOf (← field j "p"), ← optOf shapeOf j "lsh"⟩
+def lightJ (l : Light) : Json := Json.mkObj [("p", ptJ l.pos), ("lsh", optJ shapeJ l.shape)]
+
 def scenOf (j : Json) : P Scenario := do
-  pure ⟨← getList laneletOf j "lanelets", ← getList ptOf j "signs", ← getList ptOf j "lights",
-        ← getList obstOf j "obstacles"⟩
+  pure ⟨← getList laneletOf j "lanelets", ← getList ptOf j "signs", ← getList lightOf j "lights",
+        ← getList obstOf j "obstacles", ← getList (listOf (listOf ptOf)) j "areas"⟩
 
 def scenJ (sc : Scenario) : Json :=
-  Json.mkObj [("lanelets", listJ laneletJ sc.lanelets), ("signs", ptsJ sc.signs), ("lights", ptsJ sc.lights),
-              ("obstacles", listJ obstJ sc.obstacles)]
+  Json.mkObj [("lanelets", listJ laneletJ sc.lanelets), ("signs", ptsJ sc.signs), ("lights", listJ lightJ sc.lights),
+              ("obstacles", listJ obstJ sc.obstacles), ("areas", listJ (listJ ptsJ) sc.areas)]
 
 def probOf (j : Json) : P Problem := do pure ⟨← stateOf (← field j "init"), ← getList stateOf j "goal"⟩
 def probJ (pp : Problem) : Json := Json.mkObj [("init", stateJ pp.init), ("goal", listJ stateJ pp.goal)]
@@ -146,9 +160,12 @@ def moveOne (m : Mo) (j : Json) : P Json := do
   | "setpred" => do
     let l ← listOf shapeOf v
     pure (resJ (listJ shapeJ) (moveOccs m l))
-  | "trajpred" => do
-    let l ← listOf stateOf v
-    pure (resJ (listJ stateJ) (match guard m with | .error e => .error e | .ok _ => moveTraj m l))
+  | "trajpred" => do           -- {"pbody": Shape, "traj": [State]}
+    let b ← shapeOf (← field v "pbody")
+    let l ← getList stateOf v "traj"
+    pure (resJ (fun (p : Pred) => match p with
+                | .traj b' sts => Json.mkObj [("pbody", shapeJ b'), ("traj", listJ stateJ sts)]
+                | _ => Json.null) (Pred.move m (.traj b l)))
   | "stopline" => do
     let sl ← stopOf v
     pure (resJ (fun (sl : Pt × Pt) => Json.arr #[ptJ sl.1, ptJ sl.2]) (moveStop m sl))
@@ -159,8 +176,8 @@ def moveOne (m : Mo) (j : Json) : P Json := do
     let p ← ptOf v
     pure (resJ ptJ (movePosition m p))
   | "light" => do
-    let p ← ptOf v
-    pure (resJ ptJ (movePosition m p))
+    let l ← lightOf v
+    pure (resJ lightJ (Light.move m l))
   | "obstacle" => do
     let o ← obstOf v
     pure (resJ obstJ (Obstacle.move m o))
@@ -185,9 +202,6 @@ def handle (op : String) (a : Json) : P Json := do
     let m ← moOf a
     let objs ← asArr (← field a "objs")
     pure <| Json.arr (← objs.mapM (moveOne m)).toArray
-  | "cs_before_fix" =>
-    let p := csBeforeFix (← getRat a "a") (← getRat a "cos") (← getRat a "sin")
-    pure <| Json.arr #[ratJ p.1, ratJ p.2]
   | "poly_mk" => pure <| resJ ptsJ (polyMk (← getList ptOf a "v"))
   | _ => throw s!"C05: unknown op {op}"
 
